@@ -1,0 +1,156 @@
+#ifndef OCCA_INTERNAL_UTILS_VERIF_HEADER
+#define OCCA_INTERNAL_UTILS_VERIF_HEADER
+
+// Verification hooks.  Nothing in this file exists unless the library is compiled with
+// -DLIBOCCA_OCCA_VERIF=1; the regular build never sees it.
+//
+// H1  live-object registry: every backend object (modeDevice_t, modeBuffer_t, modeMemory_t,
+//     modeMemoryPool_t, modeKernel_t, modeStream_t, modeStreamTag_t) reports its construction
+//     and destruction.  Per kind the registry keeps a live counter, hands out a serial number
+//     (1, 2, 3, ... in construction order) and counts how often the destructor of each
+//     serial ran.  A destructor running on an address that is not live is counted as an
+//     anomaly (double destruction seen independently of any sanitizer).
+// H2  event sink: verif::emit(line) appends one line to the file named by $OCCA_VERIF_TRACE.
+//
+// Header only (C++17 inline variables) so that no build file changes.
+#ifdef LIBOCCA_OCCA_VERIF
+
+#include <cstdio>
+#include <cstdlib>
+#include <map>
+#include <mutex>
+#include <vector>
+
+namespace occa {
+  namespace verif {
+    enum kind_t {
+      kDevice = 0,
+      kBuffer,
+      kMemory,
+      kMemoryPool,
+      kKernel,
+      kStream,
+      kStreamTag,
+      kindCount
+    };
+
+    struct registry_t {
+      std::mutex mutex;
+      long live[kindCount];
+      long anomalies;
+      // address -> serial of the live object at that address, per kind
+      std::map<const void*, long> serials[kindCount];
+      // destroyed[kind][serial - 1] = number of times the destructor ran
+      std::vector<int> destroyed[kindCount];
+      FILE *sink;
+      bool sinkChecked;
+
+      registry_t() :
+        anomalies(0),
+        sink(NULL),
+        sinkChecked(false) {
+        for (int k = 0; k < kindCount; ++k) {
+          live[k] = 0;
+        }
+      }
+    };
+
+    // Never destroyed: backend objects owned by static handles die after main()
+    inline registry_t& getRegistry() {
+      static registry_t *registry = new registry_t();
+      return *registry;
+    }
+
+    inline void created(const kind_t kind, const void *ptr) {
+      registry_t &registry = getRegistry();
+      std::lock_guard<std::mutex> guard(registry.mutex);
+      registry.destroyed[kind].push_back(0);
+      registry.serials[kind][ptr] = (long) registry.destroyed[kind].size();
+      ++registry.live[kind];
+    }
+
+    inline void destroyed(const kind_t kind, const void *ptr) {
+      registry_t &registry = getRegistry();
+      std::lock_guard<std::mutex> guard(registry.mutex);
+      std::map<const void*, long>::iterator it = registry.serials[kind].find(ptr);
+      if (it == registry.serials[kind].end()) {
+        ++registry.anomalies;
+        return;
+      }
+      ++registry.destroyed[kind][it->second - 1];
+      registry.serials[kind].erase(it);
+      --registry.live[kind];
+    }
+
+    // Number of live objects of a kind
+    inline long live(const kind_t kind) {
+      registry_t &registry = getRegistry();
+      std::lock_guard<std::mutex> guard(registry.mutex);
+      return registry.live[kind];
+    }
+
+    // Number of objects of a kind constructed so far
+    inline long constructed(const kind_t kind) {
+      registry_t &registry = getRegistry();
+      std::lock_guard<std::mutex> guard(registry.mutex);
+      return (long) registry.destroyed[kind].size();
+    }
+
+    // Serial of the live object at ptr, 0 if there is none
+    inline long serialOf(const kind_t kind, const void *ptr) {
+      registry_t &registry = getRegistry();
+      std::lock_guard<std::mutex> guard(registry.mutex);
+      std::map<const void*, long>::iterator it = registry.serials[kind].find(ptr);
+      return (it == registry.serials[kind].end()) ? 0 : it->second;
+    }
+
+    // How often the destructor of the object with this serial ran
+    inline int destroyedCount(const kind_t kind, const long serial) {
+      registry_t &registry = getRegistry();
+      std::lock_guard<std::mutex> guard(registry.mutex);
+      if (serial < 1 || serial > (long) registry.destroyed[kind].size()) {
+        return -1;
+      }
+      return registry.destroyed[kind][serial - 1];
+    }
+
+    // Destructor calls on addresses that were not live
+    inline long anomalies() {
+      registry_t &registry = getRegistry();
+      std::lock_guard<std::mutex> guard(registry.mutex);
+      return registry.anomalies;
+    }
+
+    // Forget everything (objects that are still alive are no longer tracked)
+    inline void reset() {
+      registry_t &registry = getRegistry();
+      std::lock_guard<std::mutex> guard(registry.mutex);
+      for (int k = 0; k < kindCount; ++k) {
+        registry.live[k] = 0;
+        registry.serials[k].clear();
+        registry.destroyed[k].clear();
+      }
+      registry.anomalies = 0;
+    }
+
+    inline void emit(const char *line) {
+      registry_t &registry = getRegistry();
+      std::lock_guard<std::mutex> guard(registry.mutex);
+      if (!registry.sinkChecked) {
+        registry.sinkChecked = true;
+        const char *filename = getenv("OCCA_VERIF_TRACE");
+        if (filename && filename[0]) {
+          registry.sink = fopen(filename, "a");
+        }
+      }
+      if (registry.sink) {
+        fputs(line, registry.sink);
+        fputc('\n', registry.sink);
+        fflush(registry.sink);
+      }
+    }
+  }
+}
+
+#endif
+#endif
